@@ -6,8 +6,9 @@ code by `scan` and `pretty` jobs whose results must be textually equal.
 SEARCH PART (no proof, no model): `front` jobs run the real compile / prettify / parse_arg
 on enumerated perturbations of the corpus, token soup and noise in an isolated child with
 a deadline; the parser and the type checker are NOT modelled in Coq (DESIGN.md §8)."""
-import os, re
+import os, re, random
 from vlib import *
+import vlib
 
 CORPUS = os.path.join(VERIF, "corpus", "programs")
 MAX_DEPTH = 200          # DESIGN.md §7: nesting depth bound of the generator
@@ -45,6 +46,22 @@ def tokenize(text):
 def q(text):
     """quote the UTF-8 bytes of a python str"""
     return quote(text.encode("utf-8", "replace").decode("latin1"))
+
+
+ACCESS_SEEDS = [
+    ("seed-tuple-assign", "pub fn main(x: u8) -> u8 { let mut t = (x, x); t.1 = 1; t.0 += 2; t.1 }"),
+    ("seed-nested-assign", "pub fn main(x: u8) -> u8 { let mut t = [((x, x, 2), true); 2]; t[1].0.2 = 1; t[0].0.1 }"),
+    ("seed-struct-assign", "struct S { a: (u8, bool), b: [u8; 2] }\npub fn main(x: u8) -> u8 { let mut s = S { a: (x, true), b: [x; 2] }; s.a.0 = 1; s.b[1] = 2; s.a.0 + s.b[1] }"),
+    ("seed-unit-assign", "pub fn main(x: u8) -> u8 { let mut t = (); let mut u = (x,); u.0 = 1; u.0 }"),
+    ("seed-tuple-read", "pub fn main(x: (u8, u8, bool)) -> u8 { if x.2 { x.0 } else { x.1 } }"),
+    ("seed-array-ops", "pub fn main(x: [u8; 3]) -> u8 { let mut a = x; a[2] = a[0]; let b = [a[1]; 2]; let c = a[0..2]; b[1] + c[1] }"),
+    ("seed-enum-arity", "enum E { A, B(u8), C(u8, bool) }\npub fn main(x: u8) -> u8 { let e = E::C(x, true); match e { E::A => 0, E::B(y) => y, E::C(y, true) => y + 1, E::C(_, false) => 2 } }"),
+    ("seed-call-arity", "fn f(a: u8, b: (u8, u8)) -> u8 { a + b.1 }\npub fn main(x: u8) -> u8 { f(x, (x, 1)) }"),
+    ("seed-shift-cast", "pub fn main(x: u16) -> u8 { ((x >> 1u8) << 2u8) as u8 }"),
+    ("seed-for-range", "pub fn main(x: u8) -> u8 { let mut r = x; for i in 0..3 { r = r + (i as u8); } for (a, b) in join([(1u8, x)], [(1u8, x, x)]) { r = a.1 + b.2; } r }"),
+    ("seed-const-size", "const N: usize = 2;\npub fn main(x: [u8; N]) -> u8 { let mut y = [0u8; N]; y[1] = x[0]; y[1] }"),
+    ("seed-match-tuple", "pub fn main(x: (u8, (bool, i8))) -> u8 { match x { (0, (true, _)) => 1, (1..5, (_, -3..=2)) => 2, (a, (_, _)) => a } }"),
+]
 
 
 def load_corpus():
@@ -171,8 +188,14 @@ def perturbations(rng, text, subst_pool, all_same_class=False):
         tok = text[s:e]
         words = sorted(set(text[a:b] for a, b in toks if re.fullmatch(r"[A-Za-z_]\w*", text[a:b])
                            and text[a:b] not in KEYWORDS))
-        if re.fullmatch(r"\d+\w*", tok):
+        mnum = re.fullmatch(r"(\d+)(\w*)", tok)
+        if mnum:
             cls = ["0", "1", "2", "3", "255", "256", "1u8", "1i8", "1u16", "1usize", "0i32", "true"]
+            # the neighbours of every number: arities, indices, sizes and range bounds are where
+            # `<` / `<=` decisions live
+            nv = int(mnum.group(1))
+            for c in ([str(nv + 1) + mnum.group(2)] + ([str(nv - 1) + mnum.group(2)] if nv > 0 else [])):
+                out.append(("subst-neighbour", text[:s] + c + text[e:]))
         elif tok in TYPE_NAMES:
             cls = TYPE_NAMES
         elif tok in BINOPS:
@@ -467,7 +490,9 @@ def run(ck):
         if len(t) <= 700 and small_numbers(t) and name not in SLOW_FOR_FRONT:
             base.append((name, t))
     rng.shuffle(base)
-    nbase = 60 if quick else len(base)
+    # programs that exercise every index / arity / size decision of the checker, always perturbed
+    base = [b for b in ACCESS_SEEDS] + base
+    nbase = (60 + len(ACCESS_SEEDS)) if quick else len(base)
     subst_pool = KEYWORDS + OPERATORS + ["x", "y", "u8", "bool", "S", "0", "1", "2", "255", "256", "1u8", "-1", "-1i8",
                                         "true", "/*", "*/", "//", "?", "é", "_", "0..0", "main"]
     pert_budget = 60000 if quick else 10 ** 7
@@ -478,8 +503,10 @@ def run(ck):
         for k, p in perturbations(rng, t, subst_pool, all_same_class=not quick):
             perts.append((k, p))
     if len(perts) > pert_budget:
-        rng.shuffle(perts)
-        perts = perts[:pert_budget]
+        nseed = sum(len(prefixes(t)) + len(perturbations(random.Random(0), t, subst_pool)) for _, t in ACCESS_SEEDS)
+        head, rest = perts[:nseed], perts[nseed:]     # the seeds' perturbations are never cut
+        rng.shuffle(rest)
+        perts = head + rest[:max(0, pert_budget - len(head))]
     for k, p in perts:
         add_front("pert:" + k, p)
     for _ in range(5000 if quick else 10 ** 5):
@@ -516,6 +543,7 @@ def run(ck):
     skipped += sum(1 for v in frs.values() if v == "(skipped)")
     stages = {}
     fails = 0
+    reruns = 0
     unknown_fails = 0
     fail_sites = {}
     known_class_hits = {}
@@ -532,6 +560,14 @@ def run(ck):
         st = re.match(r"\(compile (ok|\(err \w+|\(crash)", r)
         sk = st.group(1).replace("(", "").replace("err ", "err:") if st else r.split(" ")[0].strip("()")
         stages[sk] = stages.get(sk, 0) + 1
+        if is_failure(r) and kind != "deep-nesting-probe" and ("timeout" in r or "abort" in r):
+            # a deadline or a killed child inside a 16-way batch can be the machine's load, not the
+            # input: the verdict is the job run alone with a deadline of its own (DEADLINE_S)
+            r_alone = vlib._run_single(GVRUN, fjs[i], f"c07alone.{os.getpid()}", 4 * DEADLINE_S)
+            reruns += 1
+            if not is_failure(r_alone):
+                r = r_alone
+                replay["rust"] = r
         if is_failure(r):
             fails += 1
             if kind == "deep-nesting-probe":
